@@ -66,6 +66,8 @@ Inductive qop :=
 | Swap (i j : nat)             (* std::swap(pool[i], pool[j]): move-construct a temporary, two move assignments *)
 | DefCtor (i : nat)            (* new (&pool[i]) quaint_ptr()   slot i Gone: an empty pointer *)
 | VecPop                       (* vec.pop_back() *)
+| MakeThrows (i : nat) (t : ty) (* pool[i] = make_quaint<t>(...) where t's constructor throws: `new T(...)` never completes, no object
+                                  exists, no owner was created: nothing happens to the state, the history goes on *)
 | VecErase (k : nat).          (* vec.erase(vec.begin() + k): the elements behind k are move-assigned one position down
                                   (the first of these assignments releases vec[k]'s pointee, the others land on moved-from
                                   elements), then the last, moved-from, element is destroyed *)
@@ -86,6 +88,7 @@ Definition q_applicable (st : qstate) (o : qop) : bool :=
   | DefCtor i => match nth_error (pool st) i with Some Gone => true | _ => false end
   | VecPop => match vec st with [] => false | _ => true end
   | VecErase k => match nth_error (vec st) k with Some _ => true | None => false end
+  | MakeThrows i _ => match nth_error (pool st) i with Some _ => true | None => false end
   end.
 
 Definition q_step (st : qstate) (o : qop) : qstate :=
@@ -180,6 +183,7 @@ Definition q_step (st : qstate) (o : qop) : qstate :=
       | Some p => mkQ (release (heap st) p) (pool st) (firstn k (vec st) ++ skipn (S k) (vec st))
       | None => st
       end
+  | MakeThrows _ _ => st
   end.
 
 Definition q_run (st : qstate) (ops : list qop) : qstate := fold_left q_step ops st.
